@@ -126,8 +126,10 @@ func encodeMem(m MemSpec, reg int) [][]byte {
 		emit(2, imm(d, 4))
 	}
 	gen(bn, in)
-	if in >= 0 && bn >= 0 && sc == 1 && bn != 4 {
-		gen(in, bn) // base/index interchangeable at scale 1
+	if in >= 0 && bn >= 0 && sc == 1 && bn != 4 && (bn == 5) == (in == 5) {
+		// base/index interchangeable at scale 1 - unless that moves EBP into or out of the base role, which changes
+		// the default segment (SS for an EBP base)
+		gen(in, bn)
 	}
 	return out
 }
